@@ -228,7 +228,7 @@ def trusted_scan(text):
     from rsscan import mask
     m = mask(text)
     found = []
-    for mm in re.finditer(r'assume_specification\s*(?:<[^\[]*>)?\s*\[([^\]]+)\]', m, re.S):
+    for mm in re.finditer(r'assume_specification\s*(?:<[^\[]*>)?\s*\[((?:[^\[\]]|\[[^\[\]]*\])+)\]', m, re.S):
         found.append('assume_specification[%s]' % re.sub(r'\s+', ' ', mm.group(1).strip()))
     for mm in re.finditer(r'external_type_specification\]\s*(?:#\[[^\]]*\]\s*)*pub struct \w+(?:<[^>]*>)?\((\w+)', m):
         found.append('external_type_specification %s' % mm.group(1))
